@@ -438,6 +438,39 @@ def r8_type_variables_in_scope(repo):
     obs.append(Ob("C05-R8", "_gen_matching_class:fresh-type-parameters-for-types-with-type-variables", _w(f), ok,
                   "a class generated for a type with type variables must get its own type parameters "
                   "(_create_type_params_from_etype) and use the substituted type"))
+    # removing a type parameter from scope: every remaining bound must be rewritten *recursively* (the removed
+    # parameter may occur nested, `V : Foo<U>`), with the map that records the removed parameters
+    gen = repo.module("src.generators.generator")
+    sites = [(g, c) for g in repo.functions.values() if g.module is gen for c in calls_in(g.node)
+             if call_name(c) == "remove_type" and isinstance(c.func, ast.Attribute) and "context" in src(c.func.value)]
+    for g, c in sites:
+        loop = next((a for a in ancestors(c) if isinstance(a, ast.For)), None)
+        maps = []
+        if loop is not None:
+            maps = [src(n.targets[0].value) for n in ast.walk(loop) if isinstance(n, ast.Assign) and
+                    isinstance(n.targets[0], ast.Subscript) and src(n.targets[0].slice) == src(loop.target)]
+        stores = [n for n in iter_own_nodes(g.node) if isinstance(n, ast.Assign) and
+                  isinstance(n.targets[0], ast.Attribute) and n.targets[0].attr == "bound" and
+                  loop is not None and n.lineno > loop.end_lineno]
+        ok, why = False, "no bound rewrite after the removal loop"
+        for n in stores:
+            v = n.value
+            obj = src(n.targets[0].value)
+            rec = isinstance(v, ast.Call) and call_name(v) in ("substitute_type", "substitute_type_args") and \
+                len(v.args) >= 2 and src(v.args[0]) == obj + ".bound" and src(v.args[1]) in maps
+            gs = [(" ".join(src(t).split()), pol) for t, pol in flat_guards(n)]
+            only_truthiness = all(t in (obj + ".bound", obj + ".bound is not None") and pol for t, pol in gs)
+            lp = next((a for a in ancestors(n) if isinstance(a, ast.For)), None)
+            if rec and only_truthiness and lp is not None and src(lp.target) == obj:
+                ok, why = True, "`%s` for every remaining parameter" % " ".join(src(n).split())
+                break
+            why = "rewrite `%s` (guards %s) is not an unconditional recursive substitution with the removal map %s" % (
+                " ".join(src(n).split()), gs, maps)
+        obs.append(Ob("C05-R8", "%s:bounds-rewritten-recursively-after-remove_type" % g.name, _w(g, c), ok,
+                      "after type parameters are removed from scope, each remaining parameter's bound must go through "
+                      "substitute_type(<bound>, <removal map>) - a removed parameter may occur nested inside a bound: " + why))
+    obs.append(Ob("C05-R8", "remove_type-sites>=1", "src/generators/generator.py", len(sites) >= 1,
+                  "%d call sites of context.remove_type in the generator" % len(sites)))
     return obs
 
 
@@ -450,7 +483,7 @@ def rules():
         RuleSpec("C05-R5", "provenance of declaration names", 11, r5_identifier_provenance),
         RuleSpec("C05-R6", "identifier pool discipline", 5, r6_pool_discipline),
         RuleSpec("C05-R7", "reserved words of the four target languages vs. the resource files", 5, r7_reserved_data),
-        RuleSpec("C05-R8", "generated callees stay in the scope of their type variables", 2, r8_type_variables_in_scope),
+        RuleSpec("C05-R8", "generated callees stay in the scope of their type variables; removed type parameters are substituted away", 4, r8_type_variables_in_scope),
     ]
 
 
